@@ -312,6 +312,10 @@ func (m *C02) AfterTx(e *eng.Engine, t *eng.TxRec) {
 					m.issued[r.BatchDenom] = issuanceSum(x.Issuance)
 					m.issuances++
 				}
+			case *basetypes.MsgSealBatch:
+				// sealed is what the issuer's successful message says, not only what the row shows
+				// (the comparison below reports a batch that is still open as "reopened")
+				m.sealedAt[x.BatchDenom] = true
 			case *basetypes.MsgMintBatchCredits:
 				if m.sealedAt[x.BatchDenom] {
 					e.Violate("C02", "mint-after-seal", fmt.Sprintf("%s: MintBatchCredits succeeded on sealed batch %s", where, x.BatchDenom))
